@@ -453,3 +453,142 @@ Proof.
   apply abs_round_le_generic; [apply fexp64_valid | apply valid_rnd_N | | exact H].
   apply generic_format_bpow. vm_compute. discriminate.
 Qed.
+
+(* ------------------------------------------------------------ (5) round() *)
+Lemma q_round_half_even_correct n d : (0 < d)%Z ->
+  q_round_half_even n d = ZnearestE (IZR n / IZR d).
+Proof.
+  intro Hd. unfold q_round_half_even, Znearest.
+  rewrite Zfloor_div by lia.
+  set (q := (n / d)%Z). set (r := (n - q * d)%Z).
+  assert (0 <= r < d)%Z as Hr.
+  { unfold r, q. pose proof (Z.div_mod n d ltac:(lia)). pose proof (Z.mod_pos_bound n d Hd). lia. }
+  assert (0 < IZR d) as Hd' by (apply IZR_lt; exact Hd).
+  assert (IZR n / IZR d - IZR q = IZR r / IZR d) as Hx.
+  { unfold r. rewrite minus_IZR, mult_IZR. field. lra. }
+  rewrite Hx.
+  assert (0 < r -> Zceil (IZR n / IZR d) = q + 1)%Z as Hceil.
+  { intro H. apply Zceil_imp. replace (q + 1 - 1)%Z with q by lia. rewrite plus_IZR.
+    assert (0 < IZR r / IZR d) by (apply Rdiv_lt_0_compat; [apply IZR_lt; exact H | exact Hd']).
+    assert (IZR r / IZR d < 1).
+    { apply Rmult_lt_reg_r with (IZR d); [exact Hd'|]. unfold Rdiv. rewrite Rmult_assoc, Rinv_l, Rmult_1_r, Rmult_1_l by lra.
+      apply IZR_lt. lia. }
+    lra. }
+  assert (forall c, (c = Lt <-> (2 * r < d)%Z) -> (c = Gt <-> (d < 2 * r)%Z) -> True) as _ by trivial.
+  destruct (Z.ltb_spec (2 * r) d) as [L | L].
+  - rewrite Rcompare_Lt; [reflexivity|].
+    apply Rmult_lt_reg_r with (IZR d); [exact Hd'|]. unfold Rdiv. rewrite Rmult_assoc, Rinv_l, Rmult_1_r by lra.
+    apply Rmult_lt_reg_l with 2; [lra|]. replace (2 * (/ 2 * IZR d)) with (IZR d) by field.
+    change 2 with (IZR 2). rewrite <- mult_IZR. apply IZR_lt. exact L.
+  - destruct (Z.ltb_spec d (2 * r)) as [G | G].
+    + rewrite Rcompare_Gt; [rewrite Hceil by lia; reflexivity|].
+      apply Rmult_lt_reg_r with (IZR d); [exact Hd'|]. unfold Rdiv. rewrite Rmult_assoc, Rinv_l, Rmult_1_r by lra.
+      apply Rmult_lt_reg_l with 2; [lra|]. replace (2 * (/ 2 * IZR d)) with (IZR d) by field.
+      change 2 with (IZR 2). rewrite <- mult_IZR. apply IZR_lt. exact G.
+    + assert (2 * r = d)%Z as E by lia.
+      rewrite Rcompare_Eq.
+      * rewrite Hceil by lia. destruct (Z.even q); reflexivity.
+      * rewrite <- E, mult_IZR. field. apply Rgt_not_eq. apply IZR_lt. lia.
+Qed.
+
+(* (5) round(x) = round half to even of the exact value, every finite float *)
+Theorem b64_round_correct x : fin x -> b64_round x = ZnearestE (RV x).
+Proof.
+  intro Fx. unfold b64_round. destruct (parts_spec x Fx) as (m & e & -> & ->).
+  destruct (Z.leb_spec 0 e).
+  - rewrite int_scaled by assumption. symmetry. apply Znearest_imp.
+    replace (IZR (Z.shiftl m e) - IZR (Z.shiftl m e)) with 0 by ring. rewrite Rabs_R0. lra.
+  - rewrite q_round_half_even_correct.
+    + f_equal. replace e with (- (- e))%Z at 2 by lia. rewrite bpow_opp.
+      rewrite Z.shiftl_mul_pow2, Z.mul_1_l by lia.
+      rewrite <- (IZR_Zpower radix2 (- e)) by lia. reflexivity.
+    + rewrite Z.shiftl_mul_pow2 by lia. apply Z.mul_pos_pos; [lia | apply Z.pow_pos_nonneg; lia].
+Qed.
+
+(* ------------------------------------------- non-finite arguments give 0 *)
+Lemma b64_floor_nonfinite x : ~ fin x -> b64_floor x = 0%Z.
+Proof.
+  intro Nf. unfold b64_floor.
+  assert ((abs x <? c2p51)%float = false) as ->.
+  { rewrite ltb_equiv, abs_equiv. unfold Bltb. rewrite (B2SF_Prim2B c2p51).
+    unfold fin in Nf. destruct (Prim2B x) as [s|s| |s m e H]; simpl in *; try (exfalso; apply Nf; reflexivity);
+      vm_compute; reflexivity. }
+  unfold b64_floor_slow. rewrite parts_none by exact Nf. reflexivity.
+Qed.
+Lemma b64_round_nonfinite x : ~ fin x -> b64_round x = 0%Z.
+Proof. intro Nf. unfold b64_round. rewrite parts_none by exact Nf. reflexivity. Qed.
+
+(* ------------------------------- (3') fmod(x, 1), slow path, every finite x *)
+Lemma of_ZE_R m e : Rabs (RN (IZR m * bpow radix2 e)) < bpow radix2 emax ->
+  RV (b64_of_ZE m e) = RN (IZR m * bpow radix2 e) /\ fin (b64_of_ZE m e).
+Proof.
+  intro Hb. unfold b64_of_ZE, RV, fin. rewrite binary_normalize_equiv.
+  change (SF2Prim (B2SF ?b)) with (B2Prim b). rewrite Prim2B_B2Prim.
+  generalize (binary_normalize_correct prec emax Hprec Hmax mode_NE m e false).
+  cbv zeta. unfold F2R. simpl Fnum. simpl Fexp.
+  rewrite Rlt_bool_true by exact Hb. intros (A & B & _). split; assumption.
+Qed.
+
+Lemma RV_lt_emax x : Rabs (RV x) < bpow radix2 emax.
+Proof. apply abs_B2R_lt_emax. Qed.
+
+Lemma frac_abs_le v : Rabs (v - IZR (Ztrunc v)) <= Rabs v.
+Proof.
+  unfold Ztrunc. destruct (Rlt_bool_spec v 0) as [Hn | Hp].
+  - pose proof (Zceil_ub v). assert (IZR (Zceil v) <= 0).
+    { change 0 with (IZR 0). apply IZR_le. apply Zceil_glb. simpl. lra. }
+    rewrite !Rabs_left1 by lra. lra.
+  - pose proof (Zfloor_lb v). assert (0 <= IZR (Zfloor v)).
+    { change 0 with (IZR 0). apply IZR_le. apply Zfloor_lub. simpl. lra. }
+    rewrite !Rabs_pos_eq by lra. lra.
+Qed.
+
+Theorem b64_fmod_slow_1_correct x : fin x ->
+  RV (b64_fmod_slow x 1) = RV x - IZR (Ztrunc (RV x)) /\ fin (b64_fmod_slow x 1).
+Proof.
+  intro Fx. unfold b64_fmod_slow. destruct (parts_spec x Fx) as (mx & ex & -> & Hx).
+  change (b64_parts 1) with (Some (4503599627370496%Z, (-52)%Z)).
+  cbv beta iota. destruct (Z.eqb_spec 4503599627370496 0) as [Bad | _]; [discriminate Bad|].
+  destruct (Z.eqb_spec mx 0) as [Z0 | NZ].
+  - split; [| exact Fx]. rewrite Hx, Z0. rewrite Rmult_0_l. rewrite (Ztrunc_IZR 0). lra.
+  - set (e := Z.min ex (-52)). assert (e <= -52)%Z as He by (unfold e; lia). assert (e <= ex)%Z as He' by (unfold e; lia).
+    set (X := Z.shiftl mx (ex - e)). set (Y := Z.shiftl 4503599627370496 (-52 - e)).
+    assert (Y = 2 ^ (- e))%Z as HY.
+    { unfold Y. rewrite Z.shiftl_mul_pow2 by lia. change 4503599627370496%Z with (2 ^ 52)%Z.
+      rewrite <- Z.pow_add_r by lia. f_equal. lia. }
+    assert (0 < Y)%Z as HYpos by (rewrite HY; apply Z.pow_pos_nonneg; lia).
+    assert (bpow radix2 e = / IZR Y) as Hbe.
+    { rewrite HY. replace e with (- (- e))%Z at 1 by lia. rewrite bpow_opp. f_equal.
+      rewrite <- (IZR_Zpower radix2 (- e)) by lia. reflexivity. }
+    assert (RV x = IZR X * bpow radix2 e) as HxX.
+    { rewrite Hx. unfold X. rewrite Z.shiftl_mul_pow2 by lia. rewrite mult_IZR.
+      change (2 ^ (ex - e))%Z with (radix2 ^ (ex - e))%Z.
+      rewrite (IZR_Zpower radix2 (ex - e)) by lia. rewrite Rmult_assoc, <- bpow_plus. do 2 f_equal. lia. }
+    assert (IZR Y <> 0) as HYr by (apply IZR_neq; lia).
+    assert (RV x - IZR (Ztrunc (RV x)) = IZR (Z.rem X Y) * bpow radix2 e) as Hfr.
+    { rewrite HxX, Hbe. change (IZR X * / IZR Y) with (IZR X / IZR Y). rewrite Ztrunc_div by lia.
+      pose proof (Z.quot_rem' X Y) as Hq.
+      assert (IZR X = IZR Y * IZR (Z.quot X Y) + IZR (Z.rem X Y)) as Hq' by (rewrite <- mult_IZR, <- plus_IZR; f_equal; exact Hq).
+      rewrite Hq'. field. exact HYr. }
+    destruct (Z.eqb_spec (Z.rem X Y) 0) as [R0 | RN0].
+    + rewrite Hfr, R0, Rmult_0_l. destruct (get_sign x).
+      * split; [rewrite RV_SF; vm_compute Prim2SF; reflexivity | apply fin_prim; reflexivity].
+      * split; [exact RV_zero | exact fin_zero].
+    + assert (RN (IZR (Z.rem X Y) * bpow radix2 e) = IZR (Z.rem X Y) * bpow radix2 e) as E.
+      { apply round_generic; [apply valid_rnd_N|]. rewrite <- Hfr. apply frac_fmt. apply fmt_RV. }
+      destruct (of_ZE_R (Z.rem X Y) e) as [A B].
+      * rewrite E, <- Hfr. eapply Rle_lt_trans; [apply frac_abs_le | apply RV_lt_emax].
+      * rewrite A, E, Hfr. split; [reflexivity | exact B].
+Qed.
+
+(* (3) + (3'): x % 1.0 on the C level, every finite x *)
+Theorem b64_fmod_1_value x : fin x ->
+  RV (b64_fmod x 1) = RV x - IZR (Ztrunc (RV x)) /\ fin (b64_fmod x 1).
+Proof.
+  intro Fx. destruct (Rlt_dec (Rabs (RV x)) 2251799813685248) as [Hs | Hl].
+  - destruct (b64_fmod_1_correct x Fx Hs) as (A & B & _). split; assumption.
+  - unfold b64_fmod. change (1 =? 1)%float with true. rewrite andb_true_l.
+    assert (fin (abs x)) as Fa by (apply abs_fin; exact Fx).
+    rewrite (ltb_R (abs x) c2p51 Fa fin_c2p51), abs_R, RV_c2p51, Rlt_bool_false by lra.
+    apply b64_fmod_slow_1_correct. exact Fx.
+Qed.
